@@ -9,5 +9,6 @@ pub mod conn;
 pub mod exec;
 pub mod merge;
 pub mod misc;
+pub mod prepared;
 pub mod retry;
 pub mod tablets;
